@@ -394,6 +394,17 @@ def mutate(rng, kind, d):
             elif len(d['props']) > 2:
                 gone = d['props'].pop()['name']
                 d['relations'] = [x for x in d['relations'] if gone not in (x['source'], x['target'])]
+                # a definition must stay valid: drop the other references to the removed property
+                for ref in ('tsStart', 'tsEnd', 'versionProp', 'seqProp'):
+                    if d.get(ref) == gone:
+                        d[ref] = None
+                if d.get('parent') and isinstance(d['parent'], dict):
+                    pm = d['parent'].get('map') or d['parent'].get('propertyMap')
+                    if isinstance(pm, list):
+                        pm[:] = [kv for kv in pm if gone not in kv]
+                    elif isinstance(pm, dict):
+                        for k in [k for k, v in pm.items() if gone in (k, v)]:
+                            del pm[k]
         elif r < 0.67:
             if d['relations'] and rng.random() < 0.5:
                 if rng.random() < 0.5:
